@@ -4,6 +4,7 @@
     (finite, non-negative rate whenever the supplied powf values are weights). *)
 From IndModel Require Import Base Estimator.
 From IndGen Require Import Constants.
+From IndProofs Require Import EstimatorProofs EstimatorBarProofs.
 From Coq Require Import Reals Lra Lia ZArith NArith List Bool.
 From Flocq Require Import Core.Zaux Core.Raux Core.Defs Core.Generic_fmt Core.FLT IEEE754.BinarySingleNaN.
 Import ListNotations.
@@ -52,7 +53,6 @@ Theorem fl_eta_zero_when_weight_zero : forall p (b : bar FL.F) now,
   bar_eta (FL.arp p) b now = Some 0%N.
 Proof.
   intros p b now Hs Hd H1 H2.
-  assert (Hz := fl_rate_zero_when_weight_zero p (b_est b) now Hs Hd H1 H2).
-  unfold bar_eta. destruct (b_done b); [reflexivity|]. destruct (b_len b); [|reflexivity].
-  rewrite Hz. reflexivity.
+  apply (eta_no_rate (FL.arp p)).
+  exact (fl_rate_zero_when_weight_zero p (b_est b) now Hs Hd H1 H2).
 Qed.
